@@ -22,9 +22,9 @@ Proof.
   constructor; [unfold is_digit_byte; lia|]. apply IH. apply Z.mod_pos_bound. lia.
 Qed.
 
-Lemma fl_to_string_chars x s : fl_to_string x = Some s -> x <> FNaN -> (forall n, x <> FInf n) -> Forall num_char s.
+Lemma fl_to_string_chars x s : fl_to_string_dom x = Some s -> x <> FNaN -> (forall n, x <> FInf n) -> Forall num_char s.
 Proof.
-  destruct x as [|n|n|m e]; cbn [fl_to_string]; cbv zeta.
+  destruct x as [|n|n|m e]; cbn [fl_to_string_dom]; cbv zeta.
   - congruence.
   - intros _ _ H. specialize (H n). congruence.
   - intros H _ _. destruct n; apply some_inj in H; subst s; fc.
@@ -61,9 +61,9 @@ Proof.
   - intros z s H. injection H as <-. eapply Forall_impl; [|apply dec_of_Z_num_chars]. apply num_char_inert.
   - intros x s H. cbn [json_encode] in H. unfold json_float in H.
     destruct x as [|n|n|m e]; try discriminate.
-    + destruct (fl_to_string (FZero n)) as [t|] eqn:E; [|discriminate]. injection H as <-.
+    + destruct (fl_to_string_dom (FZero n)) as [t|] eqn:E; [|discriminate]. injection H as <-.
       eapply Forall_impl; [|eapply fl_to_string_chars; [exact E|discriminate|intros; discriminate]]. apply num_char_inert.
-    + destruct (fl_to_string (FFin m e)) as [t|] eqn:E; [|discriminate]. injection H as <-.
+    + destruct (fl_to_string_dom (FFin m e)) as [t|] eqn:E; [|discriminate]. injection H as <-.
       eapply Forall_impl; [|eapply fl_to_string_chars; [exact E|discriminate|intros; discriminate]]. apply num_char_inert.
   - intros t s H. injection H as <-. apply json_string_inert.
   - intros id l IH s H. rewrite json_encode_list in H. destruct (is_nil_coll nn id l).
